@@ -60,7 +60,7 @@ impl Property for C05 {
             .prop_flat_map(|lang| {
                 let l2 = lang.clone();
                 (
-                    prop_oneof![6 => Just(0u8), 1 => Just(1u8), 1 => Just(2u8), 1 => Just(3u8), 1 => Just(4u8)],
+                    prop_oneof![6 => Just(0u8), 1 => Just(1u8), 1 => Just(2u8), 1 => Just(3u8), 1 => Just(4u8), 1 => Just(5u8)],
                     num_strategy(1_000_000_000),
                     prop_oneof![3 => "[0-9]{1,3}", 2 => "0{1,3}[0-9]{1,3}", 2 => "[0-9]{4,6}", 1 => "0{1,6}"],
                     choices(),
@@ -170,6 +170,35 @@ impl Property for C05 {
                 obs.label(if c.suffix.is_empty() { "neg:separator-at-end-of-text" } else { "neg:separator-then-ordinary-word" });
                 obs.nontrivial(&(&c.lang, &text));
                 obs.sample(|| json!({"lang": c.lang, "text": text, "expect": want}));
+            }
+            5 => {
+                // an integer part beyond 10^9 built with the language's largest scale words: h * 10^e, then the decimal
+                let (scale, e): (Vec<&str>, usize) = match c.lang.as_str() {
+                    "en" => (vec!["million", "billion"], 15),
+                    "fr" => (vec!["millions", "milliard"], 15),
+                    "de" => (vec!["billion"], 12),
+                    "it" => (vec!["bilioni"], 12),
+                    "nl" => (vec!["biljoen"], 12),
+                    "pt" => (vec!["biliões"], 9),
+                    _ => (vec!["mil", "millones"], 9),
+                };
+                let h = 2 + c.n % 998;
+                let mut words = spell::cardinal_nk(&c.lang, h, &mut Canon);
+                words.extend(scale.iter().map(|x| x.to_string()));
+                words.push(sep);
+                words.extend(fraction_words(&c.lang, &c.d, &mut Bytes::new(&[])));
+                let int_digits = format!("{}{}", h, "0".repeat(e));
+                let expect = format!("{}{}{}", int_digits, mark, c.d);
+                let value: f64 = format!("{}.{}", int_digits, c.d).parse().unwrap();
+                let ctx_has_det = |s: &str| s.to_lowercase().split(|x: char| !(x.is_alphanumeric() || x == '\'')).any(|w| matches!(w, "un" | "le" | "du" | "l'"));
+                let allow = c.lang == "fr" && words.iter().any(|w| w == "neuf") && (ctx_has_det(&c.prefix) || words.iter().any(|w| w == "un"));
+                let ran = roundtrip_ex(&c.lang, &words, &expect, value, false, &c.prefix, &c.suffix, allow, false).map_err(|e| format!("{} {}", tag, e))?;
+                if !ran {
+                    obs.exclude("fr-neuf-heuristic-set-aside");
+                    return Ok(());
+                }
+                obs.label("integer-part-beyond-10^9");
+                obs.nontrivial(&(&c.lang, &words));
             }
             4 => {
                 // a zero word after a complete decimal whose fraction is spelled as a number starts a new numeral
